@@ -69,6 +69,39 @@ def rule_partition(report, prog):
                      key(f.qname, 'each cycle sends the fragment it sliced'), f.loc(w), 'fragment is not sent in the cycle it was sliced')
 
 
+def rule_reassembly(report, prog):
+    """R1 (receive side): exchange() hands a payload to its caller only after the receive-chaining loop has seen a PDU without
+    the MoreInformation flag -- every `return <value>` is reachable only through the exit edge of `while <pdu>.pfb.fmt ==
+    MoreInformation`, the loop accumulates every chained fragment and the final fragment is appended after it."""
+    for role, var, more in (('Initiator', 'res', 'DEP_RES.MoreInformation'), ('Target', 'req', 'DEP_REQ.MoreInformation')):
+        f = prog.func('%s.%s.exchange' % (DEP, role))
+        cfg = cfg_of(f)
+        loops = [w for w in walk_no_nested(f.node) if isinstance(w, ast.While) and norm(w.test) in (
+            '%s.pfb.fmt == %s' % (var, more), '%s.pfb.fmt is %s' % (var, more))]
+        if len(loops) != 1:
+            report.fail('C04-R1', key(f.qname, 'payload returned only after the last chained fragment'), f.loc(), 'receive chaining loop not found')
+            continue
+        tn = [t for e, t in cfg.test_nodes.items() if e is loops[0].test]
+        rets = [n for n in cfg.nodes if isinstance(n.ast, ast.Return) and n.ast.value is not None and try_const(n.ast.value, default=0) is not None]
+        okk = bool(rets) and bool(tn)
+        path = None
+        for r in rets:
+            o, p_ = only_via(cfg, r, [(tn[0], 'false')], ps=False) if tn else (False, None)
+            if not o:
+                okk, path = False, p_
+        report.check(okk, 'C04-R1', key(f.qname, 'payload returned only after the last chained fragment'), f.loc(loops[0]),
+                     '%s.exchange can return data without passing the end of the receive chaining loop: a chained payload reaches the '
+                     'application in pieces' % role, fmt(cfg, path) if path else None)
+        acc = [s_ for s_ in loops[0].body if isinstance(s_, ast.AugAssign) and isinstance(s_.op, ast.Add) and norm(s_.value) == var + '.data']
+        tail = [n for n in cfg.nodes if isinstance(n.ast, (ast.AugAssign, ast.Assign)) and norm(n.ast.value) == var + '.data' and
+                not any(a is loops[0] for a in ancestors(n.ast))]
+        okk = len(acc) == 1 and len(tail) == 1 and norm(acc[0].target) == norm(tail[0].ast.target if isinstance(tail[0].ast, ast.AugAssign)
+                                                                                else tail[0].ast.targets[0]) and \
+            all(norm(r.ast.value) == norm(acc[0].target) for r in rets)
+        report.check(okk, 'C04-R1', key(f.qname, 'every chained fragment and the final one are appended to the returned payload'), f.loc(loops[0]),
+                     '%s.exchange does not return the concatenation of all received fragments' % role)
+
+
 def _stale_pdus(report, f, cfg):
     """A PDU built from the current packet number is sent before the packet number changes: between `v = F(self.pni, ...)` and a
     use of v as a call argument no assignment to self.pni may happen (hoisting the construction out of a loop sends stale numbers)."""
@@ -340,6 +373,7 @@ def rule_loops(report, prog):
 def run(report, prog, tier):
     res = Resolver(prog)
     rule_partition(report, prog)
+    rule_reassembly(report, prog)
     rule_pni(report, prog)
     rule_frames(report, prog)
     c19.rule_budget(report, prog, res, rule='C04-R3')
@@ -351,6 +385,14 @@ def run(report, prog, tier):
 
 D = 'nfc.dep'
 MUTANTS = [
+    ('target-first-request-returned-unchained', DEP, """            req = self.send_dep_res_recv_dep_req(None, deadline)
+            self.pni = 0
+""", """            req = self.send_dep_res_recv_dep_req(None, deadline)
+            self.pni = 0
+            if req is not None:
+                return req.data
+""", 'C04-R1'),
+    ('initiator-drops-first-fragment', DEP, "        recv_data = res.data\n\n        while res.pfb.fmt == DEP_RES.MoreInformation:", "        recv_data = bytearray()\n\n        while res.pfb.fmt == DEP_RES.MoreInformation:", 'C04-R1'),
     ('initiator-del-width', D, """            data = send_data[0:self.miu]
             del send_data[0:self.miu]
             req = INF(self.pni, data, bool(send_data), self.did, self.nad)""", """            data = send_data[0:self.miu]
